@@ -49,15 +49,16 @@ struct C11 : vr::Driver {
   void configure(const std::string& tier, uint64_t) override {
     tier_ = tier;
     bool th = tier == "thorough";
-    vs.push_back({"two-names-full", 2, 1, 2, false, 2, 3, th ? 6 : 4, {1, 2}});
-    vs.push_back({"three-names-stop", 3, 1, 0, false, 1, 2, th ? 5 : 3, {1}});
-    vs.push_back({"filter", 2, 1, 2, true, 2, 2, th ? 5 : 3, {1, 2}});
-    vs.push_back({"chain2-async", 2, 2, 1, false, 1, 3, th ? 5 : 3, {1}});
-    vs.push_back({"three-names-async", 3, 1, 1, false, 1, 3, th ? 4 : 3, {1}});
-    if (th) vs.push_back({"filter3", 3, 1, 0, true, 1, 2, 4, {1}});
+    vs.push_back({"two-names-full", 2, 1, 2, false, 2, 3, th ? 8 : 4, {1, 2}});
+    vs.push_back({"three-names-stop", 3, 1, 0, false, 1, 2, th ? 7 : 3, {1}});
+    vs.push_back({"filter", 2, 1, 2, true, 2, 2, th ? 7 : 3, {1, 2}});
+    vs.push_back({"chain2-async", 2, 2, 1, false, 1, 3, th ? 7 : 3, {1}});
+    vs.push_back({"three-names-async", 3, 1, 1, false, 1, 3, th ? 6 : 3, {1}});
+    if (th) vs.push_back({"filter3", 3, 1, 0, true, 1, 2, 6, {1}});
+    if (th) vs.push_back({"four-names-stop", 4, 1, 1, false, 1, 2, 4, {1}});
     // the stopping action carries its own post_action_delay: it must pause the INSTANCE that ran it
-    vs.push_back({"plugin-delay-longer", 2, 1, 0, false, 2, 2, th ? 5 : 4, {1, 2}, 2});
-    vs.push_back({"plugin-delay-shorter", 2, 1, 3, false, 2, 2, th ? 5 : 4, {1, 2}, 0});
+    vs.push_back({"plugin-delay-longer", 2, 1, 0, false, 2, 2, th ? 7 : 4, {1, 2}, 2});
+    vs.push_back({"plugin-delay-shorter", 2, 1, 3, false, 2, 2, th ? 7 : 4, {1, 2}, 0});
   }
   size_t count() override { return vs.size(); }
   std::string describe(size_t i) override {
